@@ -772,6 +772,52 @@ impl<'a, 'ast> Visit<'ast> for Ctx<'a> {
                 }
                 return;
             }
+            syn::Expr::Assign(_) | syn::Expr::Binary(_) if self.item.safe_index && {
+                // E4b, assignment to an indexed place: `X[e] = v` / `X[e] op= v`
+                let left = match e { syn::Expr::Assign(a) => Some(&*a.left), syn::Expr::Binary(b) if matches!(b.op, syn::BinOp::AddAssign(_) | syn::BinOp::SubAssign(_) | syn::BinOp::MulAssign(_) | syn::BinOp::DivAssign(_) | syn::BinOp::RemAssign(_) | syn::BinOp::BitAndAssign(_) | syn::BinOp::BitOrAssign(_) | syn::BinOp::BitXorAssign(_) | syn::BinOp::ShlAssign(_) | syn::BinOp::ShrAssign(_)) => Some(&*b.left), _ => None };
+                matches!(left, Some(syn::Expr::Index(ix)) if !matches!(&*ix.index, syn::Expr::Range(_)))
+            } => {
+                // `X[e] = v` -> `{ let vx_i = vx_idx(e, X.len()); X[vx_i] = v }` (the length cannot be read inside the index of a
+                // mutable place). Side condition: X is a place expression and e is free of calls / macros / closures / nested
+                // indexing; the relative order of the bounds-check panic and a panic inside `v` is not preserved (both are panics).
+                let (left, right) = match e { syn::Expr::Assign(a) => (&*a.left, &*a.right), syn::Expr::Binary(b) => (&*b.left, &*b.right), _ => unreachable!() };
+                if let syn::Expr::Index(ix) = left {
+                    self.site("index");
+                    if matches!(e, syn::Expr::Binary(_)) { self.site("arith"); }
+                    struct Pure(bool);
+                    impl<'ast> Visit<'ast> for Pure {
+                        fn visit_expr_call(&mut self, _: &'ast syn::ExprCall) { self.0 = false; }
+                        fn visit_expr_method_call(&mut self, _: &'ast syn::ExprMethodCall) { self.0 = false; }
+                        fn visit_expr_macro(&mut self, _: &'ast syn::ExprMacro) { self.0 = false; }
+                        fn visit_expr_closure(&mut self, _: &'ast syn::ExprClosure) { self.0 = false; }
+                        fn visit_expr_index(&mut self, _: &'ast syn::ExprIndex) { self.0 = false; }
+                        fn visit_expr_assign(&mut self, _: &'ast syn::ExprAssign) { self.0 = false; }
+                    }
+                    fn is_place3(e: &syn::Expr) -> bool {
+                        match e {
+                            syn::Expr::Path(_) => true,
+                            syn::Expr::Field(f) => is_place3(&f.base),
+                            syn::Expr::Paren(p) => is_place3(&p.expr),
+                            _ => false,
+                        }
+                    }
+                    let mut pu = Pure(true);
+                    pu.visit_expr(&ix.index);
+                    if pu.0 && is_place3(&ix.expr) {
+                        let base = self.src.slice(ix.expr.span()).to_string();
+                        let idx = self.src.slice(ix.index.span()).to_string();
+                        let (a, _) = self.src.range(e.span());
+                        let (_, b) = self.src.range(e.span());
+                        let (ia, ib) = self.src.range(ix.index.span());
+                        self.add(a, a, format!("{{ let vx_i = vx_idx({idx}, {base}.len()); "), "E4b safe-index bounds check (assignment)");
+                        self.add(ia, ib, "vx_i".to_string(), "E4b safe-index bounds check (assignment)");
+                        self.add(b, b, " }".to_string(), "E4b safe-index bounds check (assignment)");
+                        self.visit_expr(right);
+                        return;
+                    }
+                    self.errors.push(format!("E4b: side condition failed for `{}`", norm(self.src.slice(e.span()))));
+                }
+            }
             syn::Expr::Reference(rf) if self.item.safe_index && rf.mutability.is_some() && matches!(&*rf.expr, syn::Expr::Index(ix) if !matches!(&*ix.index, syn::Expr::Range(_))) => {
                 // E4b, mutable place: `&mut X[e]` -> `{ let vx_n = X.len(); let vx_i = vx_idx(e, vx_n); &mut X[vx_i] }`
                 // (the length cannot be read inside the index expression while X is mutably borrowed). Side condition: X is a
